@@ -535,3 +535,17 @@ def _detector(ctx, repo, K: ClassInfo, polar_binning: FuncInfo, integrate_radial
     ctx.check(goto == inner_p, "R-BINWIDTH", f"{K.qualname}:published-offset", meta.loc(axis),
               "published radial offset = inner limit handed on", f"{K.name} publishes radial offset {goto.key()[:60]} "
               f"but the first bin starts at {inner_p.key()}", key_detail="offset")
+
+
+# ---- added: package rule R-CACHEKEY (sa/rules/memo2.py) for the modules this property is anchored in
+_inner_run = run
+
+
+def run(ctx) -> None:  # noqa: F811
+    from ..rules import memo2
+
+    ctx.rule("R-CACHEKEY", memo2.__doc__.split("\n\n", 1)[1])
+    memo2.positive_control(ctx)
+    n = memo2.check(ctx, modules={"abtem.measurements", "abtem.detectors"})
+    ctx.ok("R-CACHEKEY", "scan", "abtem/", f"{n} cache stores found in the anchored modules; positive control matched")
+    _inner_run(ctx)
